@@ -357,7 +357,25 @@ func (w *World) ruleLookAhead(r *Report, rule string) {
 // ruleHeaderSiblings: after 'M' (both readers) and after a typed-list tag the
 // first read is the type reader.
 func (w *World) ruleHeaderSiblings(r *Report, rule string) {
+	// the readers of the grammar; a Decoder method that is none of them but leads to
+	// one (`mType, err := d.registeredMapType()`: the type read and the look-up of
+	// the registered Go type moved out together) is looked into: the first read is
+	// the first read of its own entry block
+	known := map[*ssa.Function]bool{}
+	for fn := range w.readerBoundaries() {
+		known[fn] = true
+	}
+	for _, n := range []string{"(*Decoder).readType", "(*Decoder).ReadData", "(*Decoder).readTag"} {
+		if fn := w.fn(n); fn != nil {
+			known[fn] = true
+		}
+	}
+	leadsToReader := w.canReach(known)
+	var firstReadD func(fn *ssa.Function, blocks []*ssa.BasicBlock, depth int) (string, string)
 	firstRead := func(fn *ssa.Function, blocks []*ssa.BasicBlock) (string, string) {
+		return firstReadD(fn, blocks, 0)
+	}
+	firstReadD = func(fn *ssa.Function, blocks []*ssa.BasicBlock, depth int) (string, string) {
 		for _, b := range blocks {
 			for _, in := range b.Instrs {
 				c, ok := in.(*ssa.Call)
@@ -369,6 +387,11 @@ func (w *World) ruleHeaderSiblings(r *Report, rule string) {
 					continue
 				}
 				if sc.Signature.Recv() != nil && namedIs(sc.Signature.Recv().Type(), hessianPath, "Decoder") {
+					if !known[sc] && leadsToReader[sc] && sc.Blocks != nil && depth < 3 && sc != fn {
+						if got, pos := firstReadD(sc, sc.Blocks[:1], depth+1); got != "" {
+							return got, pos
+						}
+					}
 					return fnName(sc), w.instrPos(c)
 				}
 			}
